@@ -18,6 +18,7 @@ RULE = ('one execution = one nbs_bct call on synthetic subject stacks (n <= 8 no
         'component with >= 3 links, and a null with >= 2 distinct values')
 EXHAUSTIVE = {}
 ASSUMPTIONS = ['the t statistic of an unpaired edge with zero pooled variance is taken as 0 (the library convention)',
+               'paired edges whose difference is a nonzero constant (undefined statistic) are not generated',
                'a threshold closer than 1e-9 (relative) to some t statistic makes that relabelling unjudged (rounding)',
                'a call where no edge exceeds the threshold must raise BCTParamError (counted, not judged as failure)']
 REQUIRED = ['nbs_bct/adjacency_support', 'nbs_bct/component_labels', 'nbs_bct/pvalues', 'nbs_bct/null_replayed',
@@ -46,7 +47,9 @@ def make_data(case):
     if case.get('const'):
         i, j = case['const']
         x[i, j, :] = x[j, i, :] = 1.0
-        y[i, j, :] = y[j, i, :] = 1.0 if case.get('const_same', True) else 2.0
+        # paired: a constant NONZERO difference has an undefined (0-variance, +-inf) statistic whose floating-point
+        # evaluation is rounding noise on both sides; only the identical-constant edge (difference exactly 0) is used
+        y[i, j, :] = y[j, i, :] = 1.0 if (case.get('const_same', True) or case['paired']) else 2.0
     if case.get('scales'):
         sc = 10.0 ** rs.uniform(-12, 0, size=(n, n))
         sc = np.triu(sc, 1)
